@@ -334,6 +334,11 @@ func WithTx(ctx sdk.Context, txHash []byte, msgIndex int64) sdk.Context {
 	return ctx.WithContext(c)
 }
 
+// WithTxHashOnly attaches the transaction hash but no message index.
+func WithTxHashOnly(ctx sdk.Context, txHash []byte) sdk.Context {
+	return ctx.WithContext(context.WithValue(ctx.Context(), types.TxHash, txHash))
+}
+
 // Store is the raw module store.
 func Store(ctx sdk.Context) sdk.KVStore { return ctx.KVStore(App.GetKey(types.StoreKey)) }
 
